@@ -214,6 +214,21 @@ def account_copy(P, R, writers):
 
 def accept_forms(P, R):
     acc = P.need_fn('iauth_accept')
+
+    def classify(r):
+        l, op, rr = r
+        out = []
+        for field in ('account', 'class'):
+            if isinstance(l, dict) and l.get('k') == 'idx' and is_field(l['base'], field, core.REQ_REC) and const_of(l['index']) == 0 and const_of(rr) == 0 and op in ('==', '!='):
+                out.append((field, op == '!='))
+        return out
+
+    def kill(t):
+        # a module callback may fill in the account or the class: what was tested before it is stale
+        if t.ev['k'] == 'call' and not t.ev.get('callee'):
+            return ('account', 'class')
+        return ()
+    before = rules.atom_forward(acc, classify, kill)
     forms = {}
     for s in acc.calls('iauth_send'):
         fmt = rules.fmt_literal(s.ev, 1)
@@ -221,14 +236,11 @@ def accept_forms(P, R):
         if w not in ('R', 'D'):
             continue
         args = s.ev['args'][2:]
-        gs = rules.expanded_guards(P, acc, s.bid)
+        sts = [rules.facts_of(st) for st in before.get(s.key, set())]
 
         def nonempty(field):
-            for g in gs:
-                l, op, rr = g
-                if isinstance(l, dict) and l.get('k') == 'idx' and is_field(l['base'], field, core.REQ_REC) and const_of(l['index']) == 0 and const_of(rr) == 0:
-                    return op == '!='
-            return None
+            vals = {d.get(field) for d in sts}
+            return vals.pop() if len(vals) == 1 else None
         names = [a['field'] if a.get('k') == 'mem' else sx(a) for a in args]
         forms[fmt] = (names, nonempty('account'), nonempty('class'))
         if w == 'R':
